@@ -292,7 +292,10 @@ def _independent(a: ast.stmt, b: ast.stmt) -> bool:
 
 
 def _is_simple_assign(s: ast.stmt) -> bool:
-    return (isinstance(s, ast.Assign) and len(s.targets) == 1) or (isinstance(s, ast.AnnAssign) and s.value is not None)
+    """a single-target assignment without a call (a call may have any effect: such an assignment is never moved)"""
+    if not ((isinstance(s, ast.Assign) and len(s.targets) == 1) or (isinstance(s, ast.AnnAssign) and s.value is not None)):
+        return False
+    return not any(isinstance(n, (ast.Call, ast.Yield, ast.YieldFrom, ast.Await)) for n in ast.walk(s))
 
 
 def _reorder(stmts: List[ast.stmt]) -> List[ast.stmt]:
